@@ -51,7 +51,7 @@ impl<'a, W: Write<Error = E>, E: Error> Writer<'a, W, E> {
 //@     &&& (self.out().len() > 0 && self.out().last() == 0x0A) ==> is_fresh(term_run(self.writer.evs()))
 //@ }
     pub fn new(writer: &'a mut W) -> Self {
-//@ ensures r.wf(), r.evs() == old(writer).evs(), r.errs() == old(writer).errs(), r.out() == Seq::<u8>::empty(),   // [C13,~C06,C14,~C15]
+//@ ensures r.wf(), r.evs() == old(writer).evs(), r.errs() == old(writer).errs(), r.out() == Seq::<u8>::empty(),   // [C13,~C06,~C14,~C15]
 //@     r.base@ == old(writer).evs().len(),
 //@     r.fin_evs() == final(writer).evs(), r.fin_errs() == final(writer).errs(),   // [C13]
 //@ ---
@@ -78,7 +78,7 @@ impl<'a, W: Write<Error = E>, E: Error> Writer<'a, W, E> {
 //@ ensures
 //@     final(self).fin_evs() == old(self).fin_evs(), final(self).fin_errs() == old(self).fin_errs(), final(self).base == old(self).base,
 //@     // C13: the text reaches the sink unchanged except that each LF becomes CR LF
-//@     r is Ok ==> final(self).wf() && final(self).out() == old(self).out() + lf_to_crlf(text.spec_bytes()),   // [C13,~C06,C14,~C15]
+//@     r is Ok ==> final(self).wf() && final(self).out() == old(self).out() + lf_to_crlf(text.spec_bytes()),   // [C13,~C06,~C14,~C15]
 //@     // C14: a failed sink operation is reported, success means no failure
 //@     r is Ok ==> final(self).errs() == old(self).errs(),   // [C14]
 //@     r is Err ==> final(self).errs() > old(self).errs(),   // [C14]
@@ -173,7 +173,7 @@ impl<'a, W: Write<Error = E>, E: Error> Writer<'a, W, E> {
 //@ ensures
 //@     final(self).fin_evs() == old(self).fin_evs(), final(self).fin_errs() == old(self).fin_errs(), final(self).base == old(self).base,
 //@     // C13: as write_str, followed by one line break
-//@     r is Ok ==> final(self).wf() && final(self).out() == old(self).out() + lf_to_crlf(text.spec_bytes()) + seq![0x0Du8, 0x0Au8],   // [C13,~C06,C14,~C15]
+//@     r is Ok ==> final(self).wf() && final(self).out() == old(self).out() + lf_to_crlf(text.spec_bytes()) + seq![0x0Du8, 0x0Au8],   // [C13,~C06,~C14,~C15]
 //@     r is Ok ==> final(self).evs().len() >= old(self).evs().len()
 //@         && (forall|i: int| 0 <= i < old(self).evs().len() ==> #[trigger] final(self).evs()[i] == old(self).evs()[i]),
 //@     r is Ok ==> final(self).errs() == old(self).errs(),   // [C14]
